@@ -515,7 +515,6 @@ def impl_view(r):
     return {"value": v, "truth": r["truth"], "stage": r.get("stage")}
 
 
-D6 = "D6"
 D8 = "D8"
 
 
@@ -552,14 +551,14 @@ def judge(ctx, impl, case, m, r, probe=False):
     if not has_ast:
         return
     # ---- the generator's tree must be the tokens that were evaluated (else the case says nothing)
-    if not m["render_match"] and not m["escaped_char"]:
+    if not m["render_match"]:
         # never skip silently: the theorems would not apply to what was executed
         ctx.dist["render_mismatch"] += 1
         ctx.corr_break("render", rec, "tokens of the text (Lean lexer + expander models)", "EvalBridge.render of the generated tree")
         # The theorems do not apply to what the model executed, but the property still speaks about the implementation:
         # the text is the generator's rendering of the tree, and `gcc -E` is asked to confirm that reading before the
         # implementation is judged against the tree's C value (bounded number of gcc runs).
-        if wf and ctx.dist["render_mismatch:gcc_arbiter"] < 60 and not m.get("big_unsuffixed") and not m.get("escaped_char"):
+        if wf and ctx.dist["render_mismatch:gcc_arbiter"] < 60 and not m.get("big_unsuffixed"):
             ctx.dist["render_mismatch:gcc_arbiter"] += 1
             want = int(m["spec"]["v"]) != 0
             res, diag, _ = gcc_truths([(case["defs"], case["text"])])
@@ -570,11 +569,12 @@ def judge(ctx, impl, case, m, r, probe=False):
         return
     if not wf:
         return
+    if m["escaped_char"]:
+        ctx.dist["wf:with_escaped_character_constant"] += 1
     # ---- property oracle: implementation vs C semantics
     sv = m["spec"]
     want_truth = int(sv["v"]) != 0
     classifiers = [
-        (D6, lambda c: m["escaped_char"] and isinstance(tv, dict) and tv["exc"] in ("TypeError", "ParseError")),
         (D8, lambda c: m["big_unsuffixed"] and isinstance(tv, dict) and tv["exc"] == "OverflowError"),
     ]
     bad = None
@@ -753,10 +753,23 @@ def all_literal_spellings(ctx, full):
             out.append((mk_chr("plain", ch), "char"))
     for e in SIMPLE_ESC:
         out.append((mk_chr("simple", e), "char-esc"))
-    for ds in ([0], [7], [1, 0], [1, 0, 1], [3, 7, 7], [0, 0, 0], [4, 0, 0]):
-        out.append((mk_chr("octal", ds), "char-esc"))
-    for ds in ([(4, False), (1, False)], [(0, False)], [(7, False), (15, True)], [(15, False), (15, False)], [(0, False), (4, False), (1, False)],
-               [(1, False), (0, False), (0, False)]):
+    # every octal escape \o, \oo, \ooo (those above \377 have no C value: model vs implementation only)
+    for n in (1, 2, 3):
+        for ds in itertools.product(range(8), repeat=n):
+            out.append((mk_chr("octal", ds), "char-esc"))
+    # every hex escape with one or two digits in both letter cases, leading zeros, and codes above 255
+    for v in range(256):
+        hi, lo = divmod(v, 16)
+        for up in (False, True):
+            if up and hi < 10 and lo < 10:
+                continue
+            out.append((mk_chr("hex", [(hi, up), (lo, up)]), "char-esc"))
+            if hi == 0:
+                out.append((mk_chr("hex", [(lo, up)]), "char-esc"))
+        if rng.random() < (1.0 if full else 0.2):
+            out.append((mk_chr("hex", [(0, False)] * rng.randint(1, 6) + [(hi, rng.random() < 0.5), (lo, rng.random() < 0.5)]), "char-esc"))
+    for ds in ([(1, False), (0, False), (0, False)], [(15, False), (15, True), (15, False)], [(1, False), (0, False), (0, False), (0, False), (0, False)],
+               [(0, False), (1, False), (0, False), (0, False)]):
         out.append((mk_chr("hex", ds), "char-esc"))
     # a constant inside a comparison with its own value spelled in decimal (value observed through truth only)
     more = []
@@ -765,6 +778,16 @@ def all_literal_spellings(ctx, full):
             inf = lit_info(t)
             if inf and rng.random() < (1.0 if full else 0.25):
                 more.append((bin_("==", t, mk_lit(inf[0], "dec", ("u", "", True) if inf[1] else ("", "", False))), "literal=="))
+        elif o == "char-esc" and rng.random() < (1.0 if full else 0.25):
+            try:
+                v = twin(t, set())[0]
+            except UB:
+                continue
+            k = par(un("-", mk_lit(-v))) if v < 0 else mk_lit(v)
+            more.append((bin_("==", t, k), "char-esc=="))
+            if rng.random() < 0.3:     # signed char: promoted to a negative intmax_t, not to a large unsigned value
+                more.append((bin_("<", t, mk_lit(128)), "char-esc<"))
+                more.append((bin_("+", t, mk_lit(1, "dec", ("u", "", True))), "char-esc+u"))
     return out + more
 
 
@@ -776,8 +799,29 @@ MACROS = {  # name -> (definition string, replacement tree)
     "U": ("U=4u", mk_lit(4, "dec", ("u", "", True))),
     "X": ("X=(1+2)", par(bin_("+", mk_lit(1), mk_lit(2)))),
     "H": ("H=0x7fffffffffffffff", mk_lit(IMAX, "hex")),
+    "NL": ("NL='\\n'", mk_chr("simple", "n")),
+    "E": ("E='\\377'", mk_chr("octal", [3, 7, 7])),
 }
 UNKNOWN = ["UNDEF", "foo_bar", "_x9", "defined_", "true", "__STDC__x"]
+
+
+def random_escaped_char(rng):
+    """a character constant written with an escape sequence, all three kinds; mostly with a C value (code <= 255)"""
+    k = rng.random()
+    if k < 0.3:
+        return mk_chr("simple", rng.choice(list(SIMPLE_ESC)))
+    code = rng.choice([0, 1, 7, 8, 10, 63, 64, 65, 127, 128, 129, 200, 254, 255, rng.randrange(256), rng.randrange(256)])
+    if k < 0.65:
+        ds = [int(c) for c in oct(code)[2:]]
+        ds = [0] * rng.randint(0, 3 - len(ds)) + ds
+        if rng.random() < 0.04:
+            ds = [rng.randint(4, 7), rng.randint(0, 7), rng.randint(0, 7)]        # above \\377: no C value
+        return mk_chr("octal", ds)
+    ds = [(int(c, 16), rng.random() < 0.5) for c in hex(code)[2:]]
+    ds = [(0, False)] * rng.choice([0, 0, 1, 2, 5]) + ds
+    if rng.random() < 0.04:
+        ds = [(1, False)] + ds[-2:] if len(ds) >= 2 else [(1, False), (0, False)] + ds      # above 255: no C value
+    return mk_chr("hex", ds)
 
 
 def random_leaf(rng, defs_on):
@@ -789,10 +833,10 @@ def random_leaf(rng, defs_on):
     if r < 0.55:
         n = rng.choice([0, 1, UMAX, UMAX - 1, IMAX + 1, rng.getrandbits(64)])
         return mk_lit(n, rng.choice(["dec", "hex", "oct"]), rng.choice([s for s in SUFFIXES if s[0]]), False, rng.random() < 0.5)
-    if r < 0.62:
-        return mk_chr("plain", rng.choice("aZ09 ~!@#(){}+-*/"))
+    if r < 0.60:
+        return mk_chr("plain", rng.choice("aZ09 ~!@#(){}+-*/\"?x"))
     if r < 0.64:
-        return mk_chr("simple", rng.choice(list(SIMPLE_ESC)))
+        return random_escaped_char(rng)
     if r < 0.74:
         return defd(rng.choice(list(MACROS) + UNKNOWN[:2]), rng.random() < 0.5)
     if r < 0.84 and defs_on:
@@ -847,7 +891,8 @@ def random_cases(ctx, n, origin="random"):
     return out
 
 
-GLUE_ATOMS = ["0", "1", "2", "08", "1.5", "0x", "1uu", "1lul", "0b2", "1e+3", "0x1e+2", "'a'", "'\\n'", "''", "\"s\"", "\"+\"", "A", "F", "G",
+GLUE_ATOMS = ["0", "1", "2", "08", "1.5", "0x", "1uu", "1lul", "0b2", "1e+3", "0x1e+2", "'a'", "'\\n'", "''", "'\\101'", "'\\x41'", "'\\377'", "'\\xFf'", "'\\400'", "'\\x100'", "'\\x'", "'\\q'", "'\\8'", "'\\1234'", "'\\18'",
+              "'\\xg'", "'\\'", "'\\\\'", "'\\''", "'ab'", "'\\0", "\"s\"", "\"+\"", "A", "F", "G",
               "defined", "defined(A)", "defined A", "defined(", "defined()", "defined(1)", "f(1)", "f()", "f(1,2)", "f(1,)", "f((2))", "f(A,'a')",
               "f(1 2)", "f(08)", "f(0xFFFFFFFFFFFFFFFF)", "f(g(1),2)", "0xFFFFFFFFFFFFFFFF", "18446744073709551616u", "9223372036854775808",
               "(", ")", "+", "-", "*", "/", "?", ":", "&&", "||", "==", "<", "<<", "~", "!", ",", "#", "=", "@", "$", "(1", "1)", "()"]
@@ -881,7 +926,7 @@ def glue_cases(ctx, n):
 # ---------------------------------------------------------------------------
 # `#elif` of a chain that has already selected a branch is not evaluated
 # ---------------------------------------------------------------------------
-BAD_EXPRS = ["1 +", "(", ")", "1 1 +", "'\\n'", "0xFFFFFFFFFFFFFFFF", "99999999999999999999999", "08", "\"s\"", "? :", "defined", "defined(",
+BAD_EXPRS = ["1 +", "(", ")", "1 1 +", "'\\n'", "'\\q'", "'\\400'", "'\\x'", "0xFFFFFFFFFFFFFFFF", "99999999999999999999999", "08", "\"s\"", "? :", "defined", "defined(",
              "1 / 0", "f(", "@", "", "1 ? 2", "0x", "-", "'ab'", "1 << 64", "A B"]
 
 
@@ -1218,7 +1263,8 @@ def run(ctx, drv):
     full = ctx.thorough()
     ctx.rule = (
         "input = parse tree of the C #if grammar (unary + - ! ~, the 18 binary operators, ?:, parentheses; integer constants in "
-        "4 bases x 23 suffix spellings, character constants, defined X / defined(X), object-like macros, unknown identifiers) rendered "
+        "4 bases x 23 suffix spellings, character constants (plain, the 11 simple escapes, EVERY octal escape \\o \\oo \\ooo, every hex "
+        "escape of one or two digits in both letter cases plus zero-padded and out-of-range ones), defined X / defined(X), object-like macros, unknown identifiers) rendered "
         "to text with minimal or redundant parentheses and random white space, evaluated by the real Lexer + MacroExpander + "
         "ExpressionEvaluator (truth by evaluate() / IfNode.evaluate_for_platform, value+signedness by expression() and by generated "
         "`(E) == k` / `((E)*0-1) < 0` probes). Exhaustive: all expressions with <= 1 operator over the 17-element boundary literal set; "
